@@ -854,6 +854,10 @@ class FuelHandler:
             if a not in self.moved:
                 self.moved.append(a)
 
+        if incoming.p.assemNum < 0:
+            # name and register a fresh assembly's blocks before some of them change hands
+            incoming.renumber(self.r.incrementAssemNum())
+            self.r.core.blocksByName.update((b.getName(), b) for b in incoming)
         self._transferStationaryBlocks(incoming, outgoing)
 
         # replace the goingOut guy.
